@@ -6,6 +6,11 @@ use crate::secp::{Curve, U256};
 pub struct XKey { pub k: U256, pub c: [u8; 32] }
 
 pub fn master(seed: &[u8]) -> Option<XKey> {
+    let o = master_raw(seed);
+    crate::trace::rec("master", 100, || (crate::trace::h(seed), match &o { Some(x) => format!("[\"{}\",{}]", x.k.to_hex64(), crate::trace::h(&x.c)), None => "null".into() }));
+    o
+}
+fn master_raw(seed: &[u8]) -> Option<XKey> {
     let i = hmac_sha512(b"Bitcoin seed", seed);
     let k = U256::from_be(i[..32].try_into().unwrap());
     if k.is_zero() || k >= crate::secp::n() { return None; }
@@ -13,6 +18,11 @@ pub fn master(seed: &[u8]) -> Option<XKey> {
 }
 /// `index` is the full 32-bit value (>= 2^31 means hardened)
 pub fn ckd(curve: &Curve, parent: &XKey, index: u32) -> Option<XKey> {
+    let o = ckd_raw(curve, parent, index);
+    crate::trace::rec("ckd", 1500, || (format!("[\"{}\",{},{}]", parent.k.to_hex64(), crate::trace::h(&parent.c), index), match &o { Some(x) => format!("[\"{}\",{}]", x.k.to_hex64(), crate::trace::h(&x.c)), None => "null".into() }));
+    o
+}
+fn ckd_raw(curve: &Curve, parent: &XKey, index: u32) -> Option<XKey> {
     let mut data = Vec::with_capacity(37);
     if index >= 0x8000_0000 { data.push(0); data.extend_from_slice(&parent.k.to_be()); }
     else { data.extend_from_slice(&curve.compressed(&curve.mul_g(&parent.k).unwrap())); }
